@@ -481,11 +481,12 @@ func (c *Cluster) respond(q *Req, v replyVariant) {
 		if len(req.Extras) >= 8 {
 			cid = int64(binary.BigEndian.Uint32(req.Extras[4:]))
 		}
-		var l []uint64
+		var l, lh []uint64
 		for _, vb := range cn.bucket.vbs {
 			if cn.bucket.vbmap[vb.id][0] != cn.node {
 				continue
 			}
+			lh = append(lh, uint64(vb.id), vb.high)
 			if w.cfg.SeqnoOmitVb == vb.id+1 {
 				continue // the vBucket is momentarily active nowhere (takeover): no node lists it
 			}
@@ -507,6 +508,9 @@ func (c *Cluster) respond(q *Req, v replyVariant) {
 			l = append(l, uint64(vb.id), hs)
 		}
 		w.jl(&journal.Ev{K: journal.KSeqnos, M: cn.member, Vb: -1, L: l, I: cid, S: cn.role})
+		if cn.role == "d" {
+			w.jl(&journal.Ev{K: journal.KNote, M: cn.member, Vb: -1, S: "vbhighs", L: lh, I: cid})
+		}
 	case memd.CmdGet:
 		d := c.liveDoc(cn.bucket, string(req.Key))
 		if d == nil {
